@@ -1407,6 +1407,23 @@ func handleClientMessage(c *webClient, m clientMessage) error {
 				"cannot join multiple groups",
 			)
 		}
+		// We normally redirect at the HTTP level, but the group
+		// description could have been edited in the meantime.
+		// Check before joining, so that we don't become a member
+		// of a group that we are not going to record in c.group.
+		if g, err := group.Add(m.Group, nil); err == nil {
+			redirect := g.Description().Redirect
+			if redirect != "" {
+				username := c.username
+				return c.write(clientMessage{
+					Type:     "joined",
+					Kind:     "redirect",
+					Group:    m.Group,
+					Username: &username,
+					Value:    redirect,
+				})
+			}
+		}
 		c.data = m.Data
 		g, err := group.AddClient(m.Group, c,
 			group.ClientCredentials{
@@ -1448,18 +1465,6 @@ func handleClientMessage(c *webClient, m clientMessage) error {
 				Group:    m.Group,
 				Username: &username,
 				Value:    s,
-			})
-		}
-		if redirect := g.Description().Redirect; redirect != "" {
-			// We normally redirect at the HTTP level, but the group
-			// description could have been edited in the meantime.
-			username := c.username
-			return c.write(clientMessage{
-				Type:     "joined",
-				Kind:     "redirect",
-				Group:    m.Group,
-				Username: &username,
-				Value:    redirect,
 			})
 		}
 		c.group = g
